@@ -291,6 +291,10 @@ def make_base(rng, needs=(), small=True):
             rng, ['flow', 'no_flow', 'duct_average'] if 'gapwall' in needs
             else ['none', 'none', 'flow', 'no_flow', 'duct_average'])
         corr = wl.choose(rng, NONBARE) if 'wire' in needs else None
+        if 'ctfric' in needs:
+            corr = (wl.choose(rng, ['MIT', 'CTD', 'UCTD']),
+                    wl.choose(rng, ['CTD', 'UCTD']),
+                    wl.choose(rng, ['CTD', 'UCTD']))
         tdep = False if 'const' in needs else bool(rng.random() < 0.15)
         P, f = wl.single_assembly(
             rng, tdep=tdep, gap=gap, lf=('lf' in needs), regions=False,
@@ -781,6 +785,14 @@ _register_numeric()
 
 
 # ---- pins / wire / clad -----------------------------------------------
+
+@mut('Assembly/wire_pitch=zero:CT_friction', 'Assembly/wire_pitch', 'zero',
+     'reject', needs=('wire', 'ctfric', 'nolf'))
+def _m_wp0(P, T, rng):
+    # same fault as Assembly/wire_pitch=zero, on a base whose friction
+    # correlation (CTD/UCTD) has no bare-rod applicability check
+    P['types'][T]['wire_pitch'] = 0.0
+
 
 def _scale_to_misfit(P, T, excess):
     """Scale pitch, diameter and wire together until the bundle is wider
@@ -2040,10 +2052,14 @@ def extra_coverage(results):
 
 FINDINGS = {
     'F4': 'required axial step floors to 0 (np.floor(min_dz*1e6)/1e6) or a '
-          'zero / sub-micron axial_mesh_size is taken over: '
-          'Reactor._setup_zpts never advances (or needs > 2e5 steps)',
+          'zero axial_mesh_size is taken over: Reactor._setup_zpts never '
+          'advances (repaired upstream in 074c855; rules kept for older '
+          'trees)',
     'F12c': 'spacer-grid correlation with default solidity in an SI input: '
            'ValueError "Cannot convert unit to itself" in check_spacergrid',
+    'F1823': 'axial_mesh_size has no useful lower bound: 1e-12 m is taken '
+             'over and the mesh construction needs 5e11 planes (F4\'s '
+             'repair 074c855 only stops steps that round to zero)',
     'F1801': 'wire_pitch = 0 with wire_diameter > 0 accepted: '
            'ZeroDivisionError in the friction / flow-split correlations',
     'F1802': 'SpacerGrid loss_coeff = 0 is treated as "not given": '
@@ -2132,14 +2148,17 @@ def _rules():
     rule('F1803', lambda k, o, w: k.get('fault') in (
         'nan', 'inf', 'neg_inf', 'nan literal', 'inf literal'))
     # --- step requirement not positive
+    rule('F1823', lambda k, o, w: k.get('mutator') ==
+         'Setup/axial_mesh_size=tiny' and o == 'non_progress:>2e5_steps')
     rule('F4', lambda k, o, w: k.get('mutator') in (
         'Core/bypass_fraction=tiny', 'Assignment/flowrate=tiny',
         'Assembly/bypass_gap_flow_fraction=tiny',
         'Assembly/wire_pitch=tiny', 'AxialRegion/vf_coolant=tiny',
         'Setup/axial_mesh_size=zero', 'Setup/axial_mesh_size=tiny')
         and _bad(o, 'non_progress'))
-    rule('F1801', lambda k, o, w: k.get('mutator') == 'Assembly/wire_pitch=zero'
-         and o == 'exception:ZeroDivisionError')
+    rule('F1801', lambda k, o, w: k.get('mutator') in (
+        'Assembly/wire_pitch=zero', 'Assembly/wire_pitch=zero:CT_friction')
+        and o == 'exception:ZeroDivisionError')
     rule('F1802', lambda k, o, w: k.get('mutator') == 'SpacerGrid/loss_coeff=zero'
          and o == 'exception:AssertionError'
          and w == 'region_rodded.py:_setup_spacer_grid')
